@@ -518,7 +518,7 @@ def Origin (s : Sys) (e : Emit) : Prop :=
       ∃ r, r ∈ s.roots ∧ Desc s r e.target
   | .classIndex => e.ctx = some e.page ∧ visible s e.target = true ∧ e.marked = some (classNodePrivate s s.n e.target)
   | .nameIndex => e.ctx = some e.page ∧ visible s e.target = true ∧ e.marked = some (ctxPrivate s e.target)
-  | .undoc => e.ctx = some e.page ∧ visible s e.target = true
+  | .undoc => e.ctx = some e.page ∧ visible s e.target = true ∧ e.marked = some (ctxPrivate s e.target)
   | .allDocs => e.ctx = none ∧ e.marked = some ((s.ob e.target).privacy == .priv) ∧ visible s e.target = true
   | .indexRoots => e.ctx = some e.page ∧ e.target ∈ s.roots ∧ visible s e.target = true
 
@@ -1039,7 +1039,7 @@ theorem origin_summary {s : Sys} {e : Emit} (h : e ∈ summaryEmits s) : Origin 
   · obtain ⟨o, ho, rfl⟩ := List.mem_map.mp h
     simp only [Origin, entry]; exact ⟨trivial, mem_visibleAll ho, trivial⟩
   · obtain ⟨o, ho, rfl⟩ := List.mem_map.mp h
-    simp only [Origin, link]; exact ⟨trivial, mem_visibleAll (List.mem_filter.mp ho).1⟩
+    simp only [Origin, entry]; exact ⟨trivial, mem_visibleAll (List.mem_filter.mp ho).1, trivial⟩
   · split at h
     · obtain ⟨o, ho, rfl⟩ := List.mem_map.mp h
       obtain ⟨ho1, ho2⟩ := List.mem_filter.mp ho
